@@ -237,6 +237,13 @@ fn synth_cases<W: Write>(prop: &str, opts: &Opts, out: &mut W, rng: &mut Rng) {
         }
         emit_vp8l(out, prop, &format!("synth-order-{hi}-{lo}-{}-simple-code-order", if in_red { "red" } else { "green" }), &synth::hidden_simple_order(hi, lo, in_red));
     }
+    // invalid streams that are complete for a reader which stops a multi-pixel sub-image after its first pixel
+    for which in 0..3u32 {
+        if !opts.mine(940 + which as u64) {
+            continue;
+        }
+        emit_vp8l(out, prop, &format!("synth-first-pixel-only-{which}-invalid"), &synth::first_pixel_only(which));
+    }
     // invalid streams whose violation hides behind a sub-image that a reader with a wrong idea of its size swallows whole
     let mut hi = 0u64;
     for &(w, h) in &[(16u32, 1u32), (17, 3), (33, 9), (64, 64), (100, 40), (257, 5)] {
